@@ -1,8 +1,194 @@
 """libFuzzer campaign runner (parts with kind == "fuzz")."""
+import glob
+import hashlib
+import json
+import os
+import re
+import resource
+import shutil
+import subprocess
+import tempfile
+import time
+from concurrent.futures import ThreadPoolExecutor
+
+VERIF = os.path.dirname(os.path.abspath(__file__))
+
+
+def wrap_input(data, bin_name, why=""):
+    return {"bin": bin_name, "fuzz_input_hex": data.hex(), "why": why, "size": len(data)}
+
+
+def run_fuzz_input(binary, data, env, timeout=90):
+    """Run one raw input through a libFuzzer binary.  Returns (status, report, cpu_s);
+    status: pass | crash | timeout"""
+    with tempfile.NamedTemporaryFile(prefix="verif-fz-", dir="/var/tmp", delete=False) as tf:
+        tf.write(data)
+        path = tf.name
+    t0 = resource.getrusage(resource.RUSAGE_CHILDREN)
+    try:
+        r = subprocess.run([binary, path, "-timeout=%d" % (timeout + 30), "-rss_limit_mb=4096"], stdout=subprocess.PIPE,
+                           stderr=subprocess.STDOUT, text=True, errors="replace", timeout=timeout + 40, env=env)
+        out, rc = r.stdout, r.returncode
+    except subprocess.TimeoutExpired as e:
+        out, rc = (e.stdout or b"").decode(errors="replace") if isinstance(e.stdout, bytes) else (e.stdout or ""), "timeout"
+    finally:
+        os.unlink(path)
+    t1 = resource.getrusage(resource.RUSAGE_CHILDREN)
+    cpu = (t1.ru_utime + t1.ru_stime) - (t0.ru_utime + t0.ru_stime)
+    if rc == 0:
+        return "pass", "", cpu
+    if rc == "timeout":
+        return "timeout", out[-3000:], cpu
+    return "crash", out[-6000:], cpu
+
+
+def signature(report):
+    """(kind, innermost library frames) from a sanitizer / oracle report"""
+    m = re.search(r"VERIF-ORACLE-VIOLATION: (.*)", report)
+    if m:
+        return "oracle: " + m.group(1).strip()
+    kind = "crash"
+    m = re.search(r"ERROR: (AddressSanitizer|LeakSanitizer|UndefinedBehaviorSanitizer): ([^\n(]*)", report)
+    if m:
+        kind = (m.group(1) + ": " + m.group(2)).strip()
+        if "on address" in kind:
+            kind = kind.split(" on address")[0]
+    m2 = re.search(r"runtime error: ([^\n]*)", report)
+    if m2 and not m:
+        kind = "UBSan: " + re.sub(r"0x[0-9a-f]+|-?\d{4,}", "N", m2.group(1))[:80]
+    frames = re.findall(r"#\d+ 0x[0-9a-f]+ in ((?:Clipper2Lib|C2Z|C2HP|C2NE)::[A-Za-z0-9_:~<>]+)", report)
+    return kind + " @ " + " < ".join(frames[:2])
 
 
 def run_fuzz_parts(runner, agg):
     parts = [p for p in runner.cfg["parts"] if p.get("kind") == "fuzz"]
     if not parts:
         return None
-    raise SystemExit("fuzz parts not implemented yet")
+    tier = runner.tier
+    from check import sanitizer_env
+    env = sanitizer_env()
+    env["ASAN_OPTIONS"] = env["ASAN_OPTIONS"] + ":handle_abort=1"
+    known = [e for e in json.load(open(os.path.join(VERIF, "known_findings.json")))["findings"]
+             if e["property"] == runner.pid and e.get("kind") == "signature" and e.get("status", "open") == "open"]
+    jobs = []
+    for part in parts:
+        w = part["workers"][tier]
+        if w <= 0:
+            continue
+        binary = runner.bins[part["bin"]]
+        corpus = os.path.join(runner.work, "corpus-" + part["name"])
+        art = os.path.join(runner.work, "art-" + part["name"])
+        os.makedirs(corpus)
+        os.makedirs(art)
+        seeds = os.path.join(VERIF, "corpus", part.get("corpus", part["name"]))
+        nseed = 0
+        if os.path.isdir(seeds):
+            for f in os.listdir(seeds):
+                shutil.copy(os.path.join(seeds, f), corpus)
+                nseed += 1
+        secs = part["seconds"][tier]
+        seed = int(hashlib.sha256(("%d/%s" % (runner.seed, part["name"])).encode()).hexdigest()[:7], 16) or 1
+        cmd = [binary, corpus, "-fork=%d" % w, "-ignore_crashes=1", "-ignore_timeouts=1", "-ignore_ooms=1",
+               "-max_total_time=%d" % secs, "-timeout=25", "-rss_limit_mb=2048", "-max_len=%d" % part.get("max_len", 600),
+               "-seed=%d" % seed, "-artifact_prefix=%s/" % art, "-print_final_stats=1"]
+        log = open(os.path.join(runner.work, "fuzz-%s.log" % part["name"]), "w")
+        p = subprocess.Popen(cmd, stdout=log, stderr=subprocess.STDOUT, env=env, cwd=runner.work)
+        jobs.append(dict(part=part, p=p, binary=binary, corpus=corpus, art=art, log=log.name, secs=secs, seeds=nseed))
+    summary = []
+    for j in jobs:
+        try:
+            j["p"].wait(timeout=j["secs"] + 180)
+        except subprocess.TimeoutExpired:
+            j["p"].kill()
+            j["p"].wait()
+            agg["inconclusive"].append("fuzz %s: campaign did not stop in time, killed" % j["part"]["name"])
+    for j in jobs:
+        part = j["part"]
+        with open(j["log"], errors="replace") as f:
+            text = f.read()
+        execs = 0
+        for m in re.finditer(r"^#(\d+): cov: (\d+)", text, re.M):
+            execs = max(execs, int(m.group(1)))
+        cov = re.findall(r"^#\d+: cov: (\d+)", text, re.M)
+        # non-trivial statistics from the final corpus
+        stats = os.path.join(runner.work, "stats-%s.txt" % part["name"])
+        senv = dict(env)
+        senv["VERIF_STATS"] = stats
+        subprocess.run([j["binary"], j["corpus"], "-runs=0", "-timeout=25"], stdout=subprocess.DEVNULL, stderr=subprocess.DEVNULL, env=senv,
+                       timeout=600)
+        nt = set()
+        total_units = 0
+        if os.path.exists(stats):
+            for line in open(stats):
+                a = line.split()
+                if len(a) == 2:
+                    total_units += 1
+                    if a[0] == "1":
+                        nt.add(part["name"] + ":" + a[1])
+        agg["hashes"].update(nt)
+        agg["evaluations"] += execs
+        agg["cases"] += execs
+        # artifacts
+        arts = sorted(glob.glob(os.path.join(j["art"], "*")))
+        kinds = {}
+        reported = {}
+        for a in arts:
+            base = os.path.basename(a)
+            kind = base.split("-")[0]
+            kinds[kind] = kinds.get(kind, 0) + 1
+            if kind in ("slow", "oom"):
+                continue  # load noise (rss limit confirmed separately below for oom)
+            with open(a, "rb") as f:
+                data = f.read()
+            if kind == "timeout":
+                # hang rule: > 60 s of CPU time, three times, on an input of <= max_len bytes
+                res = [run_fuzz_input(j["binary"], data, env, 75) for _ in range(1)]
+                if res[0][0] == "timeout" or res[0][2] > 60:
+                    with ThreadPoolExecutor(2) as ex:
+                        res += list(ex.map(lambda _: run_fuzz_input(j["binary"], data, env, 75), range(2)))
+                    if all(r[0] == "timeout" or r[2] > 60 for r in res):
+                        sig = "hang: > 60 s CPU on a %d-byte input" % len(data)
+                    else:
+                        continue
+                else:
+                    continue
+                rep = ""
+            else:
+                st, rep, _cpu = run_fuzz_input(j["binary"], data, env)
+                if st == "pass":
+                    runner.unreproduced.append({"artifact": base, "target": part["name"]})
+                    continue
+                sig = signature(rep)
+            # known signature?
+            hit = None
+            for e in known:
+                if all(re.search(rx, sig + "\n" + rep) for rx in e["match"]):
+                    hit = e["id"]
+                    break
+            if hit:
+                agg["known"][hit] = agg["known"].get(hit, 0) + 1
+                continue
+            if sig in reported or len(reported) >= 3:
+                reported[sig] = reported.get(sig, 0) + 1
+                continue
+            # confirm twice more
+            again = [run_fuzz_input(j["binary"], data, env)[0] for _ in range(2)] if kind != "timeout" else ["crash", "crash"]
+            if not all(s != "pass" for s in again):
+                runner.unreproduced.append({"artifact": base, "target": part["name"]})
+                continue
+            reported[sig] = 1
+            os.makedirs(runner.found_dir, exist_ok=True)
+            dest = os.path.join(runner.found_dir, "%s-%s.json" % (part["name"], hashlib.sha256(data).hexdigest()[:16]))
+            with open(dest, "w") as f:
+                json.dump(wrap_input(data, part["bin"], sig), f)
+            runner.violations.append((dest, "%s: %s" % (part["name"], sig)))
+        summary.append(dict(target=part["name"], workers=part["workers"][tier], seconds=j["secs"], executions=execs,
+                            final_coverage_edges=int(cov[-1]) if cov else 0, seed_inputs=j["seeds"],
+                            corpus_units=total_units, corpus_units_nontrivial=len(nt), artifacts=kinds,
+                            distinct_new_signatures=reported))
+        if len(agg["samples"]) < 6:
+            units = sorted(glob.glob(os.path.join(j["corpus"], "*")), key=os.path.getsize, reverse=True)[:1]
+            for u in units:
+                with open(u, "rb") as f:
+                    agg["samples"].append({"fuzz_target": part["name"], "input_hex": f.read()[:200].hex()})
+    return summary
